@@ -263,6 +263,13 @@ theorem c01_legacy_never_raises_current_source (T : Tables) (env : Env) (cfg : C
     latched inp strRaises
   rw [h]; exact fun h => nomatch h
 
+/- non-vacuity of the two `…_current_source` theorems (kept next to them so that a failure is attributed to them) -/
+/-- `c01_total` / `c01_never_raises_current_source`: a configuration with both flags as extracted -/
+example : (⟨10000, false, false, [], none, Gen.printInTry, Gen.dispatchInTry, Gen.strGuarded⟩ : Cfg).printInTry = true := by decide
+
+/-- `c01_total_legacy`: the flags as extracted from the current source -/
+example : Gen.strGuarded = true ∧ Gen.printInTry = true ∧ Gen.dispatchInTry = true := by decide
+
 /-- The pre-fix shape of `digest_glucose` is expressible and raises: a successful evaluation whose value cannot be
     rendered (`10**5000`) with the conversion unguarded (the defect repaired in /repo). -/
 theorem c01_legacy_unguarded_str_raises_witness :
@@ -313,12 +320,6 @@ private def envAll : Env :=
 example : Expr.other "Attribute" [.const (.h 1)] ∈
     (Expr.call (.name "abs") [.other "Attribute" [.const (.h 1)]] [] []).strictSub := by
   simp [Expr.strictSub, strictList, strictKws]
-
-/-- `c01_total` / `c01_never_raises_current_source`: a configuration with both flags as extracted -/
-example : (⟨10000, false, false, [], none, Gen.printInTry, Gen.dispatchInTry, Gen.strGuarded⟩ : Cfg).printInTry = true := by decide
-
-/-- `c01_total_legacy`: the flags as extracted from the current source -/
-example : Gen.strGuarded = true ∧ Gen.printInTry = true ∧ Gen.dispatchInTry = true := by decide
 
 /-- `c01_tool_call_with_unpacking_refused`: `echo(**{'a': 1})` — one keyword, no name, equal lengths -/
 example : none ∈ [(none : Option String)] ∧ [(none : Option String)].length = [Expr.other "Dict" []].length := by
